@@ -38,7 +38,8 @@ Init == /\ gval = None /\ ign = FALSE /\ one = "const"
 Top == frames[Len(frames)]
 Pop == SubSeq(frames, 1, Len(frames) - 1)
 
-GuardFrames == {i \in DOMAIN frames : frames[i].type = "guard"}
+\* frames that contribute a secret condition to the guard (constant-true regions save/restore but add nothing)
+GuardFrames == {i \in DOMAIN frames : frames[i].type = "guard" /\ "const" \notin DOMAIN frames[i]}
 
 Log(a) == hist' = Append(hist, a)
 
@@ -54,6 +55,23 @@ Enter(c) ==
     /\ one' = "guard"
     /\ UNCHANGED <<unwinding, userIgn>>
     /\ Log([a |-> "enter", c |-> c])
+
+(* add_guard(1) with the plain integer 1 ("always true"): nothing changes, but the triple is still saved and    *)
+(* reinstated at the end of the region, so whatever the body did to it (e.g. the user switching error checks)  *)
+(* is undone.                                                                                                 *)
+EnterConst ==
+    /\ ~unwinding /\ Len(frames) < MaxDepth
+    /\ frames' = Append(frames, [type |-> "guard", cond |-> 1, saved |-> Triple, const |-> TRUE])
+    /\ UNCHANGED <<gval, ign, one, unwinding, userIgn>>
+    /\ Log([a |-> "enter_const", c |-> 1])
+
+(* the user calls ignore_errors(b) inside a region: the flag changes until the region ends *)
+InRegion == \E i \in DOMAIN frames : frames[i].type = "guard"
+SetIgnInside(b) ==
+    /\ ~unwinding /\ InRegion /\ ign # b
+    /\ ign' = b
+    /\ UNCHANGED <<gval, one, frames, unwinding, userIgn>>
+    /\ Log([a |-> "setign_in", c |-> IF b THEN 1 ELSE 0])
 
 (* add_guard refuses a condition that is not 0/1 (no error suppression     *)
 (* active): it raises before anything is changed; the exception then       *)
@@ -120,13 +138,14 @@ Call ==
 
 (* the user switches error checking at top level *)
 SetIgn(b) ==
-    /\ ~unwinding /\ frames = <<>> /\ userIgn # b
+    /\ ~unwinding /\ ~(\E i \in DOMAIN frames : frames[i].type = "guard") /\ userIgn # b
     /\ ign' = b /\ userIgn' = b
     /\ UNCHANGED <<gval, one, frames, unwinding>>
     /\ Log([a |-> "setign", c |-> IF b THEN 1 ELSE 0])
 
 Step ==
     \/ \E c \in {0, 1} : Enter(c)
+    \/ EnterConst \/ (\E b \in BOOLEAN : SetIgnInside(b))
     \/ EnterRejected \/ Leave \/ (\E k \in RaiseKinds : Raise(k)) \/ Unwind \/ Catch \/ Escape
     \/ TryEnter \/ TryLeave \/ Call
     \/ \E b \in BOOLEAN : SetIgn(b)
@@ -145,8 +164,9 @@ NestConj ==
     gval = IF GuardFrames = {} THEN None ELSE ProdConds(Len(frames))
 
 \* error suppression = user's choice or some enclosing condition false
+ToggledInside == \E k \in DOMAIN hist : hist[k].a = "setign_in"
 IgnConj ==
-    ign = (userIgn \/ \E i \in GuardFrames : frames[i].cond = 0)
+    ~ToggledInside => ign = (userIgn \/ \E i \in GuardFrames : frames[i].cond = 0)
 
 \* constants are scaled by the guard exactly inside guarded regions
 OneBound == (one = "guard") <=> (GuardFrames # {})
@@ -159,7 +179,7 @@ RestoreOnEnd ==
 
 \* when no region is open the triple is the initial one, modulo the user's ignore setting
 TopLevelClean ==
-    (frames = <<>>) => (gval = None /\ one = "const" /\ ign = userIgn)
+    (frames = <<>> /\ ~unwinding) => (gval = None /\ one = "const" /\ ign = userIgn)
 
 \* generator: print every complete history (all regions closed) once, as JSON, for replay into the code
 EmitHist ==
